@@ -1,143 +1,10 @@
-# Per-property configuration of ./check: generated facts, assumptions, what counts as a case.
-PROPS = {
-    "C03": {
-        "gen": ["SmbDispatch"],
-        "rule": "cases = headers (boundary grid per field x 3 SecurityFeatures variants, random, Flags above 0xFF) marshalled and "
-                "round-tripped; header decoding of random / every truncated length; GetPID/SetPID grid + random; Parameters scripts "
-                "(AddWordsFromBytesStream with even/odd streams up to 257 words, AddWord) and decoding (valid, truncated, trailing, random); "
-                "Data scripts up to 65537 bytes and decoding incl. 0..3-byte buffers; all 256 command codes x reply flag through both "
-                "factories and through Message.Unmarshal; Message.Marshal called k = 1..4 times on one message for 7 concrete commands "
-                "(Close, Echo, LogoffAndx, NtTransact, Transaction req/resp) and for the command template with arbitrary raw contents "
-                "around the 255-word / 65535-byte limits; Message.Unmarshal on well-formed, every-prefix-truncated, trailing, corrupt-count "
-                "and random messages; distinct = distinct input line; non-trivial = implementation output is a non-empty value",
-        "assumptions": ["encoding/binary Put/Uint16/32, append, copy and slice expressions behave as modelled (slices passed to decoders have capacity = length)",
-                        "a command enters the envelope only through the Marshal/Unmarshal template shared by all 115 concrete commands "
-                        "(nil-block creation, AndX words, AddWordsFromBytesStream(rawParametersContent), Data.Add(rawDataContent)); how a command "
-                        "computes its two raw contents from its fields, and reads them back, is property C04/C05/C07's subject and enters the model as data",
-                        "Header.SecurityFeatures is non-nil (NewHeader always sets it)",
-                        "MS-CIFS command names and AndX set in Spec.commandNames / Spec.andxCodes are transcribed by hand from MS-CIFS 2.2.2.1 / 2.2.4"],
-        "trusted": ["tools/extract/smb_dispatch.go reads the two factory switches, the New* constructors and codes.go (go/ast); its output is tied to the "
-                    "real factories on all 512 (code, reply) pairs in every run"],
-        "technique": "Lean 4 proof (bit-level lemmas for the 32-byte layout, induction over parameter words / repeated Marshal calls, kernel evaluation of the "
-                     "512 dispatch rows on tables regenerated from the source) about a hand model; model tied to the Go code by differential correspondence; "
-                     "independent MS-CIFS reading of the same inputs as oracle",
-        "level_text": "Theorems header_roundtrip, header_layout_eq_spec / header_slot_eq_spec (MS-CIFS 2.2.3.1 offset table), header_unmarshal_exact, pid_get_set, "
-                      "dispatch_total (all 256 codes x reply flag, on tables regenerated from 0.command_casting.go, the constructors and codes.go), marshal_eq_spec and "
-                      "frame_length (all block contents up to 255 words / 65535 bytes; guard branch and truncation witnesses separately), marshal_repeatable (every "
-                      "number of repeated Marshal calls), message_roundtrip and message_unmarshal_envelope_total are proved in Lean for all inputs about a hand-written "
-                      "model of the patched envelope code; the model is tied to the code by running both on the same generated inputs on every run, and the "
-                      "implementation is compared with an independent reading of MS-CIFS on the same inputs.",
-        "level_note": "Trusted: Lean kernel; axioms propext, Classical.choice, Quot.sound; the hand model is tied to the Go code only by differential testing (bounded); "
-                      "commands are abstracted to the pair of raw contents they contribute (template shared by all concrete commands, checked on 7 of them and on a "
-                      "harness-defined command following the template); the extractor of the dispatch tables; encoding/binary and slice semantics as modelled. "
-                      "Header.Flags is declared uint16 but one byte is emitted: the round trip is stated for Flags <= 0xFF with the truncation witness.",
-    },
-    "C16": {
-        "gen": [],
-        "rule": "cases = binary SIDs (every count 0..15 x boundary authorities exhaustively, then random counts/values, "
-                "truncations, oversized counts, wrong revisions, trailing bytes, random bytes) and distinguished names "
-                "(random RDN sequences in AD text form with escaped specials incl. '\\,DC=' inside values, plus raw text); "
-                "distinct = distinct input line; non-trivial = implementation output is a non-empty value",
-        "assumptions": ["fmt %d and strings.Join/Split/HasPrefix/TrimPrefix/TrimSuffix behave as modelled",
-                        "Lean's Nat.repr is taken as the definition of decimal notation"],
-        "trusted": [],
-        "technique": "Lean 4 proof (induction over the sub-authority list / RDN list) about a hand model; model tied to the Go code by differential correspondence; spec oracle on the same inputs",
-        "level_text": "Theorems sid_string_spec (all authorities < 2^48, all sub-authority lists up to 255, all trailing bytes), sid_total "
-                      "(no input panics), sid_short_or_wrong_revision_is_empty and dn_domain_spec (all RDN sequences in AD text form) are "
-                      "proved in Lean for all inputs about a hand-written model of ParseSIDFromBytes and GetDomainFromDistinguishedName; "
-                      "the model is tied to the code by running both on the same generated inputs on every run, and the "
-                      "implementation is compared with an independent MS-DTYP reading of the same bytes.",
-        "level_note": "Trusted: Lean kernel; axioms propext, Classical.choice, Quot.sound; the hand model is tied to the Go code only by "
-                      "differential testing (bounded); fmt/strings stdlib semantics as modelled; Nat.repr as decimal notation.",
-    },
-    "C06": {
-        "gen": [],
-        "rule": "cases = per wire type (SMB_STRING x5 formats, OEM_STRING, SMB_DATE, FILETIME, RANGE32/64, SMB_NMPIPE_STATUS, SMB_RESUME_KEY, "
-                "SMB_DIRECTORY_INFORMATION, SMB_FILE_ATTRIBUTES, AndX, Parameters, Data, Version): enc = Marshal of a value (bytes + receiver after the call); "
-                "rt = Unmarshal(Marshal(v) || suffix) into a fresh receiver (fields, n, len); dec = Unmarshal of raw bytes (every prefix of valid encodings, "
-                "corruptions, every format byte, random bytes). Values: string lengths 0..300 (thorough 0..1100) and 4096/65533/65535/65536 in every format, "
-                "packed dates and pipe-status words on a grid (thorough: all 65536 each), every WordCount 0..255, data lengths around 255/256/65535, "
-                "out-of-domain values (embedded NUL, counts out of step, long names); buffers have cap == len; "
-                "distinct = distinct input line; non-trivial = implementation output is a non-empty value",
-        "assumptions": ["encoding/binary Put/Uint16/32, append, copy and slice-bounds checks behave as modelled",
-                        "Unmarshal is run on a fresh receiver (every decoder overwrites all fields on success)",
-                        "integer endianness is taken from the code (SMB_FILE_ATTRIBUTES, AndXOffset, parameter words big-endian): conformance is C05"],
-        "trusted": [],
-        "technique": "Lean 4 proof (list induction, bit-extensionality for the packed words) about hand models of the 14 Marshal/Unmarshal pairs; "
-                     "models tied to the Go code by differential correspondence; round-trip oracle on the same inputs",
-        "level_text": "For each of the 14 wire types the theorem <Type>.rt is proved in Lean for all values of an explicit decidable domain and all "
-                      "trailing suffixes: Marshal succeeds, emits wireSize bytes, and Unmarshal(bytes ++ suffix) returns the same field values and exactly "
-                      "wireSize (SMB_RESUME_KEY / SMB_DIRECTORY_INFORMATION also from any receiver state, modulo the space padding Marshal applies: rt_norm). "
-                      "smb_date_all_words and pipe_status_all_words cover all 65536 words by bit-extensionality. SMB_NMPIPE_STATUS is proved only for the empty "
-                      "suffix (rt_partial) with the negation at a witness (finding nmpipe_trailing: the suite pins the len != 2 test). The models are of the code with "
-                      "fixes/C06-*.diff applied and are tied to it by running both on the same generated inputs on every run.",
-        "level_note": "Trusted: Lean kernel; axioms propext, Classical.choice, Quot.sound; the hand models are tied to the Go code only by differential "
-                      "testing (bounded); encoding/binary and slice semantics as modelled. Wire endianness is not judged here (C05).",
-    },
-    "C11": {
-        "gen": [],
-        "rule": "cases = real loopback TCP pairs (net.Listen 127.0.0.1:0). send: the real Send writes to a peer that reads to EOF (payload lengths "
-                "0,1,..,0xFFFF,0x10000,0x1FFFF,0x20000,0x2FFFF,0x30000 and random); recv: a scripted peer writes RFC 1002 frames in a random segmentation "
-                "(1-byte writes, pauses, MSS-sized and 64 KiB chunks) and closes after EVERY byte offset of short frame sequences and after chosen offsets of "
-                "0xFFFF/0x10000/0x1FFFF-byte frames, the real Receive is called until it fails; malformed streams (other message types, reserved flag bits, "
-                "short bodies, garbage); e2e: transport A Sends payload lists, a relay re-segments at random, transport B Receives; "
-                "distinct = distinct input line; non-trivial = implementation output is a non-empty value",
-        "assumptions": ["io.ReadFull returns exactly len(buf) bytes or an error (its documented contract)",
-                        "conn.Write(p) hands all of p to the stream or returns an error",
-                        "loopback TCP delivers the written bytes in order and reports the peer's close as EOF"],
-        "trusted": ["io.ReadFull / net.Conn semantics (contract only)"],
-        "technique": "Lean 4 proof (induction over the frame list, arithmetic of the 17-bit length) about a hand model of Send/Receive over a byte stream; "
-                     "model tied to the Go code by differential correspondence through real loopback sockets; RFC 1002 oracle on the same inputs",
-        "level_text": "Proved in Lean for all inputs about a hand model of NBTTransport.Send/Receive (with fixes/C11-17bit-length.diff): frame_roundtrip (every list "
-                      "of payloads of 0..0x1FFFF bytes is received as exactly that list), send_receive, oversize_refused (> 0x1FFFF is an error, nothing written), "
-                      "cut_is_error and cut_yields_prefix (a stream ending at any offset yields only whole sent messages, then an error), receive_total, "
-                      "frame_is_rfc1002, and readFullSeg_contract / segmentation_independent (the ReadFull loop over arbitrary TCP read sizes meets its contract). "
-                      "The model is tied to the code on every run through real loopback connections with scripted segmentations and cuts after every byte offset.",
-        "level_note": "PARTIAL for real TCP behaviour: only the byte-stream abstraction is modelled (in-order delivery, close = end of stream); resets, "
-                      "timeouts, partial writes and concurrent use of one transport are not. Trusted: Lean kernel; axioms propext, Classical.choice, Quot.sound; "
-                      "io.ReadFull / net.Conn contracts; the hand model is tied to the Go code only by differential testing (bounded).",
-    },
-    "C12": {
-        "gen": [],
-        "rule": "cases = RC4 histories (every key length 1..256 x random chunkings incl. empty chunks, data lengths around 0/1/15..17/31..33/255..257/700 "
-                "and the RFC 6229 keys with 4128-byte streams; in-place, disjoint, partially overlapping and too-short destinations; invalid key sizes; "
-                "Reset inside a history = tie only), CMAC histories (AES-128/192/256, DES, 3DES and two toy block functions given as tables of true "
-                "(input,output) pairs traced from the real code and from a reference; RFC 4493 and SP 800-38B TDES vectors; message lengths k*n-1,k*n,k*n+1 "
-                "x chunkings; every two-way split of every length 0..2n+1; random Write/Sum(prefix)/Reset interleavings; unsupported block sizes), PKCS#7 "
-                "(every block size 0..255 x lengths around multiples, pad and unpad(pad); every buffer of length <= 6 over {0,1,2,3} and <= 5 over "
-                "{0,2,5,255}; valid paddings 1..255 with one byte damaged / truncated; random long buffers), GPP (Unicode passwords incl. astral and "
-                "boundary code points: encrypt, decrypt(encrypt), decrypt of padded / unpadded / partially padded base64; arbitrary plaintexts incl. odd "
-                "lengths and lone surrogates; damaged / partial ciphertexts; base64 with newlines, garbage, over-padding; invalid UTF-8 passwords), and "
-                "the Lean models of base64 / UTF-8 / UTF-16 against Go's standard library; "
-                "distinct = distinct input line; non-trivial = implementation output is a non-empty value",
-        "assumptions": ["AES/DES are not modelled: block functions are parameters of every theorem; at run time they are tables of true (input, output) pairs "
-                        "computed by Go's crypto/aes, crypto/des (a missing pair makes the Lean side answer `miss`, which counts as a disagreement)",
-                        "GPP: `D (E x) = x` and `|E x| = 16` on 16-byte blocks are hypotheses of gpp_decrypt_encrypt (true of AES-256)",
-                        "Go semantics of encoding/base64.StdEncoding, []rune(string), string([]rune), unicode/utf16, crypto/cipher CBC, crypto/subtle "
-                        "as modelled in Manticore.C12.Prim / PKCS7 (the Prim models are compared with the Go standard library on every run)",
-                        "a Go string given to GPPPEncrypt is identified with its bytes; 'Unicode password' = UTF-8 of a list of scalar values",
-                        "RC4 buffer aliasing is modelled by the relative offset of dst and src inside one allocation (or 'different allocations')"],
-        "trusted": ["Go crypto/aes, crypto/des, crypto/cipher, encoding/base64, unicode/utf16, crypto/subtle (stdlib)",
-                    "Go crypto/rc4 and the harness's reference CMAC (RFC 4493 / SP 800-38B vectors checked at start-up) only as cross-checks of the Lean specs"],
-        "technique": "Lean 4 proof (simulation of the uint8 RC4 by the textbook algorithm on naturals; representation invariant + induction over byte/op "
-                     "lists for CMAC with an arbitrary block function; big-endian arithmetic for the subkeys; characterisation of the constant-time unpad "
-                     "loop; round-trip lemmas for base64/UTF-8/UTF-16/CBC) about hand models; models tied to the Go code by differential correspondence; "
-                     "spec oracles on the same inputs",
-        "level_text": "25 theorems proved in Lean for all inputs about hand-written models of crypto/rc4, crypto/cmac, crypto/pkcs7 and crypto/gppp: "
-                      "RC4 = textbook RC4 for every key of 1..256 bytes, every message and every history of contract-respecting XORKeyStream calls "
-                      "(rc4_eq_spec, rc4_xor_chunking, rc4_history_eq_spec, rc4_guard, rc4_key_size, rc4_involution); CMAC = SP 800-38B for an arbitrary "
-                      "8- or 16-byte block function, every message, every chunking and every Write/Sum/Reset history, incl. the subkey derivation "
-                      "(cmac_subkeys_spec, cmac_stream_eq_spec, cmac_history_eq_spec, cmac_sum_idempotent, cmac_sum_does_not_disturb_writes, cmac_reset_is_new, "
-                      "cmac_new_ok_iff); unpad(pad(m,b)) = m for all m and b in 1..255, Unpad accepts exactly the validly padded buffers and never panics "
-                      "(pkcs7_*); GPP encryption is base64(AES-256-CBC_zeroIV(pkcs7(utf16le(p)))) for an abstract block cipher, decrypt(encrypt(p)) = p for "
-                      "every Unicode password given D(E(x)) = x, unpadded base64 is accepted, decryption is total and agrees with the specification on every "
-                      "ciphertext (gpp_*). The models are tied to the code by running both on the same generated inputs on every run, and the implementation "
-                      "is compared with independent readings of the standards (Lean specs, themselves cross-checked against Go's crypto/rc4 and a reference CMAC).",
-        "level_note": "Trusted: Lean kernel; axioms propext, Classical.choice, Quot.sound; the hand models are tied to the Go code only by differential "
-                      "testing (bounded); AES/DES/CBC/base64/UTF-16 of the Go standard library; that the block function is AES-256 under the published key "
-                      "is checked at run time only (tables computed by crypto/aes under Manticore.C12.GPP.Spec.msKey). The GPP theorems hold for the tree with "
-                      "fixes/C12-gppp-odd-length.diff applied (before it, GPPPDecryptBytes panicked on odd-length plaintexts).",
-    },
-}
+# Per-property configuration of ./check: one file props/Cxx.py per claimed property
+# (keys: gen, rule, assumptions, trusted, technique, level_text, level_note).
+import importlib.util, os, glob
+PROPS = {}
+for _p in sorted(glob.glob(os.path.join(os.path.dirname(os.path.abspath(__file__)), "props", "C*.py"))):
+    _s = importlib.util.spec_from_file_location("props_" + os.path.basename(_p)[:-3], _p)
+    _m = importlib.util.module_from_spec(_s); _s.loader.exec_module(_m)
+    PROPS[os.path.basename(_p)[:-3]] = _m.CONFIG
 
 NOT_APPLICABLE = {}
